@@ -595,7 +595,7 @@ def load_database(dbpath, rootdir):
             if os.path.isabs(command.directory):
                 filedir = command.directory
             else:
-                filedir = os.path.abspath(
+                filedir = _directory_named_by(
                     os.path.join(rootdir, command.directory),
                 )
 
@@ -636,7 +636,7 @@ def load_database(dbpath, rootdir):
             # which the command runs before the usual quote-include chain.
             entry["include_files"] = [
                 (
-                    os.path.abspath(os.path.join(filedir, f))
+                    os.path.realpath(os.path.join(filedir, f))
                     if os.path.isfile(os.path.join(filedir, f))
                     else f
                 )
